@@ -1494,6 +1494,87 @@ def main_blocks(write=True):
     return _regen(translate_blocks, GEN_BLOCKS, SNAP_BLOCKS, write)
 
 
+HEADER_LS = """/-
+  GENERATED by harness/py2lean.py from the source text of /repo on every check run — do not edit.
+  `least_squares` (base/least_squares.py) as a SPECIFICATION: what the returned `params` satisfy, given what scikit-learn promises about the
+  objects the function uses.  Contracts: `StandardScaler(with_mean=False, with_std=True).fit_transform(X)` divides column j by `scale_[j]`
+  (the column's population standard deviation, 1 for a constant column: `scale_[j]^2` is the model's `colScale2`); `LinearRegression(
+  fit_intercept=False)` / `Ridge(alpha, fit_intercept=False)` `.fit(X, y, sample_weight=w)` leave in `coef_` a solution of the weighted
+  (ridge) normal equations of the matrix X THEY ARE GIVEN, every parameter penalised alike.  Props/C02.lean proves that the params so
+  specified solve the model's normal equations in the unit-variance-column scaling.
+-/
+import VerdeModel.Lemmas.LeastSquares
+namespace Verde.Gen
+open Verde
+
+"""
+GEN_LS = os.path.join(VERIF, "lean", "VerdeModel", "Gen", "LeastSquares.lean")
+SNAP_LS = os.path.join(VERIF, "lean", "VerdeModel", "GenSnapshot", "LeastSquares.lean.txt")
+
+
+def translate_least_squares():
+    path = "verde/base/least_squares.py"
+    src = open(os.path.join(REPO, path)).read()
+    fn = find_func(ast.parse(src), "least_squares")
+    if [a.arg for a in fn.args.args][:4] != ["jacobian", "data", "weights", "damping"]:
+        _fail(fn, "least_squares signature")
+    un = ast.unparse
+    b = [x for x in fn.body if not (isinstance(x, ast.Expr) and isinstance(x.value, ast.Constant))]
+    b = [x for x in b if not (isinstance(x, ast.If) and "warn(" in un(x) and len(x.body) == 1 and not x.orelse)]      # the under-determined warning
+    b = [x for x in b if not (isinstance(x, ast.If) and len(x.body) == 1 and isinstance(x.body[0], ast.Raise))]       # argument validation
+    k = 0
+    st = b[k]
+    c = st.value if isinstance(st, ast.Assign) and _is_name(st.targets[0], "scaler") else None
+    kw = {a.arg: un(a.value) for a in c.keywords} if isinstance(c, ast.Call) and getattr(c.func, "id", None) == "StandardScaler" and not c.args else None
+    if kw is None or kw.get("with_mean") != "False" or kw.get("with_std") != "True":
+        _fail(st, "scaler = StandardScaler(..., with_mean=False, with_std=True)")
+    k += 1
+    if un(b[k]) != "jacobian = scaler.fit_transform(jacobian)":
+        _fail(b[k], "jacobian = scaler.fit_transform(jacobian)")
+    k += 1
+    st = b[k]
+    ok = (isinstance(st, ast.If) and un(st.test) == "damping is None" and len(st.body) == 1 and len(st.orelse) == 1
+          and un(st.body[0]) == "regr = LinearRegression(fit_intercept=False)" and un(st.orelse[0]) == "regr = Ridge(alpha=damping, fit_intercept=False)")
+    if not ok:
+        _fail(st, "regr = LinearRegression(fit_intercept=False) | Ridge(alpha=damping, fit_intercept=False)")
+    k += 1
+    st = b[k]
+    c = st.value if isinstance(st, ast.Expr) else None
+    ok = (isinstance(c, ast.Call) and un(c.func) == "regr.fit" and len(c.args) == 2 and _is_name(c.args[0], "jacobian")
+          and un(c.args[1]) in ("np.ravel(data)", "data.ravel()", "data") and all(a.arg == "sample_weight" for a in c.keywords))
+    if not ok:
+        _fail(st, "regr.fit(jacobian, np.ravel(data), sample_weight=weights)")
+    wexpr = "weights" if (c.keywords and un(c.keywords[0].value) == "weights") else "(fun _ => 1)"
+    if c.keywords and un(c.keywords[0].value) != "weights":
+        _fail(st, "sample_weight")
+    k += 1
+    st = b[k]
+    v = st.value if isinstance(st, ast.Assign) and _is_name(st.targets[0], "params") else None
+    if not (isinstance(v, ast.BinOp) and type(v.op) in (ast.Div, ast.Mult) and {un(v.left), un(v.right)} == {"regr.coef_", "scaler.scale_"}):
+        _fail(st, "params = regr.coef_ / scaler.scale_")
+    opsym = "/" if isinstance(v.op, ast.Div) else "*"
+    lhs, rhs = ("coef j", "scale j") if un(v.left) == "regr.coef_" else ("scale j", "coef j")
+    k += 1
+    if un(b[k]) != "return params" or k != len(b) - 1:
+        _fail(b[k], "return params")
+    seg = ast.get_source_segment(src, fn)
+    return (HEADER_LS + f"/-- specification read statement by statement from {path}:{fn.lineno}-{fn.end_lineno} (least_squares), sha256 {hashlib.sha256(seg.encode()).hexdigest()[:16]} -/\n"
+            "def leastSquaresSpec {K : Type} [Field K] [LinearOrder K] [IsStrictOrderedRing K] {m n : ℕ}\n"
+            "    (jacobian : Fin m → Fin n → K) (data weights : Fin m → K) (damping : Option K) (scale : Fin n → K) (params : Fin n → K) : Prop :=\n"
+            "  ∃ coef : Fin n → K,\n"
+            "    -- jacobian = scaler.fit_transform(jacobian)          [StandardScaler(with_mean=False, with_std=True)]\n"
+            "    let jacobian' : Fin m → Fin n → K := fun i j => jacobian i j / scale j\n"
+            "    -- regr = LinearRegression(fit_intercept=False) if damping is None else Ridge(alpha=damping, fit_intercept=False)\n"
+            f"    -- regr.fit(jacobian, np.ravel(data), sample_weight=weights)\n"
+            f"    LS.normalEq jacobian' {wexpr} data (damping.getD 0) (fun _ => 1) coef ∧\n"
+            f"    -- {un(st)}\n"
+            f"    params = fun j => {lhs} {opsym} {rhs}\n\nend Verde.Gen\n")
+
+
+def main_ls(write=True):
+    return _regen(translate_least_squares, GEN_LS, SNAP_LS, write)
+
+
 HEADER_TREND = """/-
   GENERATED by harness/py2lean.py from the source text of /repo on every check run — do not edit.
   `polynomial_power_combinations` (trend.py); Props/C03.lean proves it equal to the model's explicit monomial order.
